@@ -323,6 +323,7 @@ def coverage_functions():
         add(f"pad-modes:{t}", lambda x: (jnp.pad(x, 2, mode="edge"), jnp.pad(x, 2, mode="reflect"), jnp.pad(x, 2, mode="wrap"), jnp.pad(x, 2, mode="symmetric")), v6)
         add(f"slice-strided:{t}", lambda x: (x[1:5:2], x[::-1], x[::-2]), v6)
         add(f"reshape/squeeze/expand/transpose:{t}", lambda x: (x.reshape(3, 2).T, x[None, :, None].squeeze(0), jnp.swapaxes(x, 0, 1)), m23)
+        add(f"reshape-with-dimensions:{t}", lambda x: lax.reshape(x, (3, 2), dimensions=(1, 0)), m23)
         add(f"broadcast:{t}", lambda x: jnp.broadcast_to(x[:, None], (6, 3)) + jnp.zeros((2, 6, 3), x.dtype), v6)
         add(f"rev:{t}", lambda x: lax.rev(x, (0, 1)), m23)
         add(f"reduce_sum:{t}", lambda x: (jnp.sum(x), jnp.sum(x, axis=0), jnp.sum(x, axis=1, keepdims=True), jnp.mean(x)), m23)
